@@ -217,7 +217,9 @@ var specDefects = []specDefect{
 	{name: "devices-missing", mut: func(t *rapid.T, doc obj) { delete(doc, "devices") }},
 	{name: "devices-empty", mut: func(t *rapid.T, doc obj) { doc["devices"] = []any{} }},
 	{name: "devices-null", mut: func(t *rapid.T, doc obj) { doc["devices"] = nil }},
-	{name: "devices-object", mut: func(t *rapid.T, doc obj) { doc["devices"] = obj{"name": "d", "containerEdits": obj{"env": []any{"A=b"}}} }},
+	{name: "devices-object", mut: func(t *rapid.T, doc obj) {
+		doc["devices"] = obj{"name": "d", "containerEdits": obj{"env": []any{"A=b"}}}
+	}},
 	{name: "devices-scalar", mut: func(t *rapid.T, doc obj) { doc["devices"] = "dev" }},
 	{name: "spec-annotation-bad-key", mut: func(t *rapid.T, doc obj) {
 		a, _ := doc["annotations"].(obj)
@@ -574,11 +576,11 @@ func richDoc() obj {
 	to := 5
 	edits := func(tag string) specs.ContainerEdits {
 		return specs.ContainerEdits{
-			Env:         []string{"A_" + tag + "=1", "B=2"},
-			DeviceNodes: []*specs.DeviceNode{{Path: "/dev/a" + tag, HostPath: "/dev/h" + tag, Type: "c", Major: 1, Minor: 3, FileMode: &mode, Permissions: "rw", UID: &uid, GID: &uid}, {Path: "/dev/b" + tag}},
-			Hooks:       []*specs.Hook{{HookName: "prestart", Path: "/bin/hook", Args: []string{"hook", tag}, Env: []string{"H=1"}, Timeout: &to}, {HookName: "poststop", Path: "/bin/hook2"}},
-			Mounts:      []*specs.Mount{{HostPath: "/h" + tag, ContainerPath: "/c" + tag, Options: []string{"ro", "bind"}, Type: "bind"}, {HostPath: "/h2", ContainerPath: "/c2" + tag}},
-			IntelRdt:    &specs.IntelRdt{ClosID: "clos" + tag, L3CacheSchema: "L3:0=f", MemBwSchema: "MB:0=50", EnableCMT: true},
+			Env:            []string{"A_" + tag + "=1", "B=2"},
+			DeviceNodes:    []*specs.DeviceNode{{Path: "/dev/a" + tag, HostPath: "/dev/h" + tag, Type: "c", Major: 1, Minor: 3, FileMode: &mode, Permissions: "rw", UID: &uid, GID: &uid}, {Path: "/dev/b" + tag}},
+			Hooks:          []*specs.Hook{{HookName: "prestart", Path: "/bin/hook", Args: []string{"hook", tag}, Env: []string{"H=1"}, Timeout: &to}, {HookName: "poststop", Path: "/bin/hook2"}},
+			Mounts:         []*specs.Mount{{HostPath: "/h" + tag, ContainerPath: "/c" + tag, Options: []string{"ro", "bind"}, Type: "bind"}, {HostPath: "/h2", ContainerPath: "/c2" + tag}},
+			IntelRdt:       &specs.IntelRdt{ClosID: "clos" + tag, L3CacheSchema: "L3:0=f", MemBwSchema: "MB:0=50", EnableCMT: true},
 			AdditionalGIDs: []uint32{1, 2},
 		}
 	}
